@@ -234,6 +234,9 @@ func (r *Runner) apply(o *Op) string {
 	fmt.Fprintf(r.out, "O %d %s\n", r.step, o.line())
 	fmt.Fprintf(r.out, "R %d %s\n", r.step, res)
 	r.observe(r.step)
+	if o.Kind == "export" {
+		r.exportStep() // monitor C19 + group gen, on cache branches
+	}
 	r.mon.after(o, res, pre)
 	r.results = append(r.results, res)
 	r.hist.Ops = append(r.hist.Ops, *o)
